@@ -21,7 +21,8 @@ Universe == {
   Ev("k2", "a", 5, 2, <<Tg("a", "30000:a:x")>>),
   Ev("k3", "b", 5, 4, <<Tg("e", "r1"), Tg("a", "30000:a:x")>>),
   Ev("k6", "a", 5, 1, <<Tg3("e", "p2"), Tg3("a", "30000:b:x")>>),
-  Ev("k7", "a", 5, 4, <<Tg("e", "k1")>>)
+  Ev("k7", "a", 5, 4, <<Tg("e", "k1")>>),
+  Ev("r6", "b", 1, 2, <<Tg("t", "x"), Tg("t", "y"), Tg("p", "a")>>)   \* two values of one tag name
 }
 
 VARIABLE st
